@@ -126,6 +126,8 @@ fn main() {
             std::process::exit(2)
         });
         dispatch_replay(&params, &v)
+    } else if std::env::var("VERIF_STACKPROBE").is_ok() {
+        framing::stack_probe(&params, None)
     } else {
         dispatch(&params)
     };
